@@ -61,12 +61,15 @@ int main() {
 '''
 
 
-def compile_consts(tag, includes, names, prefix=''):
-    """Compile+run a program printing the given constant names; returns dict or error string."""
+def compile_consts(tag, includes, names, prefix='', fallbacks=None, _absent=()):
+    """Compile+run a program printing the given constant names; returns dict or error string.
+    `fallbacks`: helper constants that are mere combinations of others (masks); when the source no longer declares one
+    (a maintainer removed an unused helper), its defining expression over the remaining constants is evaluated instead."""
     os.makedirs(BUILD, exist_ok=True)
     src = os.path.join(BUILD, f'consts_{tag}.cpp')
     exe = os.path.join(BUILD, f'consts_{tag}')
-    body = '\n'.join(f'  P("{n}", static_cast<unsigned long long>({prefix}{n}));' for n in names)
+    fallbacks = fallbacks or {}
+    body = '\n'.join(f'  P("{n}", static_cast<unsigned long long>({fallbacks[n] if n in _absent else prefix + n}));' for n in names)
     prog = CONST_PROG % {'includes': '\n'.join(f'#include "{i}"' for i in includes), 'body': body}
     key = hashlib.sha256((prog + ''.join(read(i) for i in includes)).encode()).hexdigest()
     cache = os.path.join(BUILD, f'consts_{tag}.json')
@@ -82,6 +85,9 @@ def compile_consts(tag, includes, names, prefix=''):
     r = subprocess.run(['g++', '-std=c++20', '-O0', '-w', f'-I{REPO}/include', src, '-o', exe, '-pthread'],
                        capture_output=True, text=True)
     if r.returncode != 0:
+        m = re.search(r"[‘'`](\w+)[’'] was not declared in this scope", r.stderr)
+        if m and m.group(1) in fallbacks and m.group(1) not in _absent:
+            return compile_consts(tag, includes, names, prefix, fallbacks, tuple(_absent) + (m.group(1),))
         return 'compile failed: ' + r.stderr[-2000:]
     r = subprocess.run([exe], capture_output=True, text=True)
     if r.returncode != 0:
@@ -215,7 +221,8 @@ HEADER = '-- GENERATED by extract/extract.py from the sources under /repo on eve
 
 def gen_pess(status):
     names = ['kNoLocks', 'kSLock', 'kSIXLock', 'kXLock', 'kXMask']
-    vals = compile_consts('pess', [f'{REPO}/src/lock/pessimistic_lock.cpp'], names)
+    vals = compile_consts('pess', [f'{REPO}/src/lock/pessimistic_lock.cpp'], names,
+                          fallbacks={'kXMask': '(kXLock | kSIXLock)', 'kSMask': '(~0ULL ^ (kXLock | kSIXLock))'})
     if isinstance(vals, str):
         status['errors'].append('pess constants: ' + vals)
         vals = {'kNoLocks': 0, 'kSLock': 1, 'kSIXLock': 1 << 62, 'kXLock': 1 << 63, 'kXMask': 3 << 62}
@@ -233,7 +240,10 @@ def gen_pess(status):
 def gen_opt(status):
     names = ['kNoLocks', 'kSLock', 'kSIXLock', 'kXLock', 'kVersionMask', 'kAllLockMask', 'kXMask', 'kSMask',
              'kSAndSIXMask', 'kXAndVersionMask']
-    vals = compile_consts('opt', [f'{REPO}/src/lock/optimistic_lock.cpp'], names)
+    vals = compile_consts('opt', [f'{REPO}/src/lock/optimistic_lock.cpp'], names, fallbacks={
+        'kAllLockMask': '(~0ULL ^ kVersionMask)', 'kXMask': '(kXLock | kSIXLock)',
+        'kSMask': '((~0ULL ^ kVersionMask) ^ (kXLock | kSIXLock))', 'kSAndSIXMask': '((~0ULL ^ kVersionMask) ^ kXLock)',
+        'kXAndVersionMask': '(kXLock | kVersionMask)'})
     if isinstance(vals, str):
         status['errors'].append('opt constants: ' + vals)
         vals = {'kNoLocks': 0, 'kSLock': 1 << 32, 'kSIXLock': 1 << 62, 'kXLock': 1 << 63,
